@@ -526,6 +526,15 @@ def install_rest(reg, src):
     # is_linear gets the functional clause (only used by callers that need cache exactness)
     reg.ISLIN = ISLIN
 
+    def linear_cache_invariant(c, sp, P, s0):
+        """Inv (C13) assumed at the entry of Problem.solve: a non-None linearity cache is the linearity of the current model"""
+        ip = c.ip
+        want, _ = linprob(ip, sp, s0)
+        cnone = s0.cache_none["_is_linear_cache"]
+        cval = z3.Select(st(ip, "Problem._is_linear_cache", sym.B), P.ref)
+        c.assume(z3.Implies(z3.Not(cnone), cval == want))
+    reg.solve_entry_invariants = [linear_cache_invariant]
+
     @reg.contract(f"{M}:{P_}_is_linear_problem", props=["C13", "C08", "C04", "C06"], cases={"cache": ["none", "set"], "objective": ["none", "set"]})
     def _(c):
         sp = Spec(c.ip)
@@ -555,6 +564,8 @@ def install_rest(reg, src):
             now = PState(ip, P)
             t = res.t if isinstance(res, SBool) else z3.BoolVal(bool(res))
             nv = z3.Select(st(ip, "Problem._is_linear_cache", sym.B), P.ref)
+            if not c.verifying:
+                ip.path.ghost["is_linear_problem_answer"] = t          # read by the dispatcher's contract (dispatch_c)
             return [t == want, z3.And(z3.Not(now.cache_none["_is_linear_cache"]), nv == want), now.same_model(s0)]
         c.ensures("answer = linearity of the current model / cached / model untouched", post)
 
@@ -627,6 +638,8 @@ def install_rest(reg, src):
 
         def post(res):
             t = ip.models.name_term(res)
+            if not c.verifying:
+                ip.path.ghost["auto_selected_method"] = res
             return [z3.Or(t == sym.lit("L-BFGS-B"), t == sym.lit("trust-constr"), t == sym.lit("SLSQP")),
                     z3.Implies(t == sym.lit("L-BFGS-B"), s0.ncon == 0),      # never a bounds-only method with constraints
                     PState(ip, P).same_model(s0)]
